@@ -45,12 +45,14 @@ const NONE: Cfg = Cfg { digits: false, words: false, spaces: false, repetitions:
 
 fn scenario(n: u32) -> Vec<(Vec<&'static str>, Cfg)> {
     match n {
-        // same universe on two threads under two presentations, class conversion: lazy tables are first used
-        // under contention, and the equivalent trie states below `a` and `b` hold their edges in different orders
-        0 => {
-            let c = Cfg { digits: true, ..NONE };
-            vec![(vec!["a1xx", "a2yy", "b1yy", "b2xx"], c), (vec!["b2xx", "a1xx", "b1yy", "a2yy", "a1xx"], c)]
-        }
+        // two threads, two presentations of one set, two different class configurations, two builds each: lazy
+        // tables are first used under contention, the equivalent trie states below `a` and `b` hold their edges in
+        // different orders, process state written by one configuration is visible to the other, and the second
+        // build of each thread meets whatever the first builds left behind
+        0 => vec![
+            (vec!["a1xx", "a2yy", "b1yy", "b2xx"], Cfg { digits: true, ..NONE }),
+            (vec!["b2xx", "a1xx", "b1yy", "a2yy", "a1xx"], Cfg { words: true, ..NONE }),
+        ],
         // different configurations on the same strings (cross-talk through process state)
         1 => vec![
             (vec!["a1 ", "b2 "], Cfg { digits: true, ..NONE }),
@@ -127,8 +129,8 @@ fn main() {
         handles.push(thread::spawn(move || {
             barrier.wait();
             let first = build(&cases, cfg);
-            // a second build on the same thread (process state is warm now); skipped in the cheapest scenario
-            let second = if n == 0 { first.clone() } else { build(&cases, cfg) };
+            // a second build on the same thread (process state is warm now)
+            let second = build(&cases, cfg);
             (first, second)
         }));
     }
